@@ -104,6 +104,7 @@ def _mirrored_functions():
         "SymbolTables.enter_scope": symbol_table.SymbolTables.enter_scope,
         "SymbolTables.exit_scope": symbol_table.SymbolTables.exit_scope,
         "SymbolTables.remove": symbol_table.SymbolTables.remove,
+        "SymbolTables.rollback": getattr(symbol_table.SymbolTables, "rollback", None),
         "SymbolTable.del_child": symbol_table.SymbolTable.del_child,
         "FortranReaderBase.error": readfortran.FortranReaderBase.error,
     }
@@ -113,6 +114,9 @@ def current_fingerprints():
     repo.activate()
     out = {}
     for k, fn in sorted(_mirrored_functions().items()):
+        if fn is None:
+            out[k] = "absent"
+            continue
         if isinstance(fn, (staticmethod, classmethod)):
             fn = fn.__func__
         out[k] = _fingerprint(fn)
@@ -326,6 +330,40 @@ def _quirks():
             raise ExtractionError("Program.match: NoMatchError handler has an unmodelled shape")
     else:
         raise ExtractionError("Program.match: unmodelled exception structure")
+    # Program.__new__: snapshot/rollback of the symbol tables on failure
+    ntree = ast.parse(textwrap.dedent(inspect.getsource(
+        getattr(Fortran2003.Program.__dict__["__new__"], "__wrapped__",
+                Fortran2003.Program.__dict__["__new__"]))))
+    ncalls = [getattr(c.func, "attr", "") for c in ast.walk(ntree) if isinstance(c, ast.Call)]
+    handlers_n = [hd for hd in ast.walk(ntree) if isinstance(hd, ast.ExceptHandler)]
+    if "rollback" not in ncalls and "snapshot" not in ncalls:
+        q["programRollback"] = False
+    elif ncalls.count("snapshot") == 1 and handlers_n and all(
+            any(isinstance(c, ast.Call) and getattr(c.func, "attr", "") == "rollback"
+                for c in ast.walk(hd)) for hd in handlers_n) and any(
+            getattr(hd.type, "id", "") == "BaseException" for hd in handlers_n):
+        from fparser.two.symbol_table import SymbolTables
+        rb = ast.dump(ast.parse(textwrap.dedent(inspect.getsource(SymbolTables.rollback))))
+        if "_current_scope" not in rb or "_symbol_tables" not in rb:
+            raise ExtractionError("SymbolTables.rollback has an unmodelled shape")
+        q["programRollback"] = True
+    else:
+        raise ExtractionError("Program.__new__: snapshot/rollback used in an unmodelled way")
+    # the same-label DO hook: does it skip leading comments first?
+    hook_ifs = [n for n in ast.walk(tree) if isinstance(n, ast.If)
+                and isinstance(n.test, ast.Name) and n.test.id == "enable_do_label_construct_hook"]
+    if len(hook_ifs) != 1:
+        raise ExtractionError("BlockBase.match: DO-label hook not found")
+    hbody = ast.Module(body=hook_ifs[0].body, type_ignores=[])
+    hcalls = [getattr(c.func, "attr", getattr(c.func, "id", "")) for c in ast.walk(hbody)
+              if isinstance(c, ast.Call)]
+    if "add_comments_includes_directives" not in hcalls:
+        q["hookSkipsComments"] = False
+    elif hcalls.count("add_comments_includes_directives") == 1 and "extend" in hcalls \
+            and hcalls.count("restore_reader") == 2:
+        q["hookSkipsComments"] = True
+    else:
+        raise ExtractionError("BlockBase.match: DO-label hook has an unmodelled shape: %s" % hcalls)
     # Outer/Inner_Shared_Do_Construct.match: restore on failure or not
     shapes = []
     for cls in (Fortran2003.Outer_Shared_Do_Construct, Fortran2003.Inner_Shared_Do_Construct):
@@ -632,7 +670,8 @@ def render_lean(t):
         "%s := %s" % (k, _b(q[k])) for k in ["main0Finally", "catchInternalSyntax",
                                              "nameMismatchSyntax", "nameMismatchRemoves",
                                              "seqRestores", "startNameNoneSyntax",
-                                             "programContinues"]))
+                                             "programContinues", "programRollback",
+                                             "hookSkipsComments"]))
     L.append("  }")
     L.append("")
     L.append("def program : Cls := %d" % t["program"])
